@@ -186,7 +186,8 @@ def jobs(tier):
 
 # a successful save loads back: key files of their own one and two levels down, and a process environment in which
 # every variable the schema is bound to exists but is empty
-VARIANTS = ["key-on-sub", "key-on-deep", "key-on-sub-and-deep", "env-empty", "env-empty+key-on-deep"]
+VARIANTS = ["key-on-sub", "key-on-deep", "key-on-sub-and-deep", "env-empty", "env-empty+key-on-deep", "format-options"]
+OPTIONS = {"json": {"pretty": False}, "yaml": {"root_key": "CFG"}, "xml": {"root_tag": "settings"}, "bson": {}, "pickle": {}}
 
 
 def _loadback(job, ctx):
@@ -236,17 +237,26 @@ def _loadback(job, ctx):
                     ctx.transitions += 1
                     case = _case(job, ident)
                     fp = "C19|loadback|%s|%s|%s|" % (variant, fmt, into)
+                    opts = OPTIONS[fmt] if variant == "format-options" else {}
                     try:
-                        cfg.save(dest, fmt)
+                        cfg.save(dest, fmt, **opts)
+                        if opts:
+                            with open(dest, "rb") as fh:
+                                written = fh.read()
+                            if written != cfg.dumps(fmt, **opts) and fmt != "pickle" and "sec" not in STATES[state] and "items" not in STATES[state] and "ch" not in STATES[state]:
+                                ctx.violation(fp + "written-differs-from-serialised", "state %s: save(..., %s) did not write what dumps(%s) produces" % (state, opts, opts), case)
                     except Exception as exc:  # noqa
                         ctx.violation(fp + "save-raises", "state %s: a plain save raised %r" % (state, exc), case)
                         continue
                     want = _norm(cc.asdict(cfg))
                     target = cfg if into == "same" else setup()
                     try:
-                        target.load(dest, fmt)
-                        if into == "fresh-twice":
-                            target.load(dest, fmt)
+                        for _ in range(2 if into == "fresh-twice" else 1):
+                            if opts:      # Config.load takes no format options
+                                with open(dest, "rb") as fh:
+                                    target.loads(fh.read(), fmt, **opts)
+                            else:
+                                target.load(dest, fmt)
                         got = _norm(cc.asdict(target))
                     except Exception as exc:  # noqa
                         ctx.case(("loadback", variant, state, fmt, into), "loadback:raises", True)
